@@ -26,7 +26,7 @@ TECHNIQUE = 'Lean 4 proof (Finset sums, roots-of-unity orthogonality, periodic r
 GEN = ['BlurWiring', 'Extent', 'FieldIdx', 'FieldMerge', 'FieldDispatch', 'NormalizePower', 'RescaleGrid']
 OPS = ['C01', 'C05', 'C19', 'C17']
 RULE = ('cases: non-negative images with rows, cols drawn independently from 1..8 (thorough 1..12; forced 1xn, nx1, even/odd, non-square), '
-        'smooth-positive / sparse point-source / constant images; pixel with oversample 1..5, jitter with scale 0..1.5 px, smear with '
+        'one case in eight has an axis of a non-fast FFT length 13/17/19/23/29/31; smooth-positive / sparse point-source / constant images; pixel with oversample 1..5, jitter with scale 0..1.5 px, smear with '
         'distance 0..4 px (tail to 8) and angle in [0,360) incl. 0/45/90, also angle=None under a seeded global generator; integer and fractional oversampling; default arguments; pixelate; extents also given in physical units with a pixel scale; the call is made on the caller\'s own array; circular shifts '
         'of either sign; zero extent. distinct = (kind, shape, parameters, roll); non-trivial = non-square or oversample ≠ 1 or '
         'physical units (outside what the test-suite samples) A ≈5 % sample (search tier: a leading block of 220) comes from an extremes stream: pixel scales 1e-12 … 1e-8 and 1e3 … 1e9 with multi-pixel extents, int16/int32/uint8/uint16/uint32/int64 frames at the limits of their dtype (totals beyond 2³¹), image amplitudes 1e-100 … 1e9, extents 0 / 5e-324 / 1e-300 / 25–60 px, frames of 257–1024 samples along one axis (search only); all tolerances are relative to Σ img. About 5 % of jitter/smear cases use a negative pixel scale. pixelate cases are compared with the rescale contract evaluated on the model\'s pixel output at the C17 model\'s interpolation grid.')
@@ -47,6 +47,11 @@ TOL = 1e-9
 
 # ------------------------------------------------------------------------------------------ generation
 def _shape(rng, kmax):
+    if rng.integers(0, 8) == 0:
+        # an axis whose length is not a "fast" FFT length (13, 17, 19, 23, 29, 31): padding to a fast length would turn the circular
+        # convolution into a linear one; the other axis small so that the interpreted model stays cheap
+        n = int([13, 17, 19, 23, 29, 31][int(rng.integers(0, 6))]); k = int(rng.integers(1, 5))
+        return (n, k) if rng.integers(0, 2) else (k, n)
     t = rng.integers(0, 8)
     if t == 0: return (1, int(rng.integers(1, kmax + 1)))
     if t == 1: return (int(rng.integers(1, kmax + 1)), 1)
@@ -167,6 +172,7 @@ def tags(c):
     if m != n: t.append('non-square')
     if m == 1 or n == 1: t.append('single-row/col')
     t.append('parity:' + ('e' if m % 2 == 0 else 'o') + ('e' if n % 2 == 0 else 'o'))
+    if max(m, n) >= 13 and max(m, n) in (13, 17, 19, 23, 29, 31): t.append('non-fast-length')
     if c['pixelscale'] != 1.0: t.append('physical-units')
     return t
 
